@@ -108,7 +108,11 @@ inductive Step where
   | cont (c : Cfg)
   deriving DecidableEq, Repr, Inhabited
 
-def dollarIs (d : Str) (s : String) : Bool := d == s.toList.map Char.toNat
+/-- "INCLUDE", "ORIGIN", "TTL" as character codes (kept free of `String` so that the kernel can
+evaluate the model on concrete texts) -/
+def sINCLUDE : Str := [73, 78, 67, 76, 85, 68, 69]
+def sORIGIN : Str := [79, 82, 73, 71, 73, 78]
+def sTTL : Str := [84, 84, 76]
 
 /-- one iteration of the `loop` of `next_token` -/
 def step (c : Cfg) : Step :=
@@ -162,9 +166,9 @@ def step (c : Cfg) : Step :=
       match c.cd with
       | none => .fail                                             -- IllegalState
       | some d =>
-        if dollarIs d "INCLUDE" then .ret (some .include) c.txt .restOfLine
-        else if dollarIs d "ORIGIN" then .ret (some .origin) c.txt .restOfLine
-        else if dollarIs d "TTL" then .ret (some .ttl) c.txt .restOfLine
+        if d = sINCLUDE then .ret (some .include) c.txt .restOfLine
+        else if d = sORIGIN then .ret (some .origin) c.txt .restOfLine
+        else if d = sTTL then .ret (some .ttl) c.txt .restOfLine
         else .fail                                                -- UnrecognizedDollar
     match c.txt with
     | [] => finish
